@@ -42,3 +42,18 @@ def expectedPN (pre : List Op) : List Op → List (Option PNMsg)
   | op :: ops => expectPN pre op :: expectedPN (pre ++ [op]) ops
 
 end Midi.Spec
+
+namespace Midi.Spec
+open Midi
+
+/-- does the operation concern channel `c`?  (channel messages on `c`; every reset; never a system message) -/
+def opOnChannel (c : Nat) : Op → Bool
+  | .feed b => b.status < 240 && b.status % 16 == c
+  | .reset => true
+
+/-- the outputs of the operations that concern channel `c`, in order -/
+def outsOn {α} (c : Nat) : List Op → List α → List α
+  | op :: ops, o :: os => if opOnChannel c op then o :: outsOn c ops os else outsOn c ops os
+  | _, _ => []
+
+end Midi.Spec
